@@ -461,7 +461,32 @@ def mart_wf(S, I, which, finiteN):
         Fk = Fc.at(k)
         return bimp(band(icmp(">=", k, 1), inside(mu(isub(k, 1)), u)), band(Fk.fin(), rcmp(">=", Fk.v, 0)))
 
-    instQ = induction_with(S, "product-finite-nonneg", Q, n, pre=lambda k: mono(k))
+    # factor lemma (modular, proved once at a fresh index with the null mean opaque): inside(mu_k) => the k-th factor is finite and >= 0
+    k0 = z3.Int(c.fresh("fl_k"))
+    c.index_terms_add(k0)
+    zero_ = XR.const(0)
+
+    def fgoal(k):
+        fk = xr(fc.at(k))
+        return bimp(inside(mu(k), u), band(fk.fin(), rcmp(">=", fk.v, 0)))
+
+    def fhyps(k):
+        hy = [k >= 0, k < zi(n), xcmp(">", u, zero_), xcmp(">=", x.at(k), zero_), xcmp("<=", x.at(k), u), xr(mu(k)).wf()]
+        pk = par.at(k)
+        if which == "alpha":
+            hy += [xcmp(">=", pk, zero_), xcmp("<=", pk, u)]
+        else:
+            hy += [bimp(band(xcmp(">", mu(k), zero_), xcmp("<=", mu(k), u)),
+                        band(xcmp(">=", pk, zero_), xcmp("<=", xmul(pk, mu(k)), XR.const(1))))]
+        return hy
+
+    rfl = S.prove_using("factor finite and >= 0 while the null mean is inside (0,u)", fgoal(k0), fhyps(k0), opaque=[mu(k0)])
+
+    def flem(k):
+        if rfl.status == "proved":
+            c.assume(bimp(band(icmp(">=", k, 0), icmp("<", k, n)), fgoal(zi(k))))
+
+    instQ = induction_with(S, "product-finite-nonneg", Q, n, pre=lambda k: (mono(k), flem(k), flem(k - 1)))
 
     # lemma T: every entry handed to the final  min(1, 1/.)  is a non-NaN value in [0, +inf]
     def T_ok_v(T):
